@@ -101,4 +101,37 @@ Definition sync (r : reader) : Res (N * reader) :=
 
 Definition start (l : bytes) (terr : N) : reader := mkR l None terr.
 
+(* ---- the loop as pinned in /repo BEFORE the repair of F1: the false-sync path does not advance
+   `off`.  Kept only to state the defect (Properties/C16.v C16_F1_pinned_refuted); no op uses it. *)
+Fixpoint sync_loop_pinned (fuel : nat) (r : reader) (off : N) : Res (N * option N * reader) :=
+  match fuel with
+  | O => Diverge
+  | S f =>
+    let (x, r1) := read_byte r in
+    match x with
+    | inr e => Ok (off, Some (map_err e), r1)
+    | inl b =>
+      if negb (b =? SyncByte) then sync_loop_pinned f r1 (off + 1) else
+      let (u, r2) := unread_byte r1 in
+      match u with
+      | Some e => Ok (off, Some e, r2)
+      | None =>
+        let? (ok, err, r3) := is_synced r2 in
+        if ok then Ok (off, None, r3) else
+        match err with
+        | Some e => Ok (off, Some (map_err e), r3)
+        | None =>
+          let (y, r4) := read_byte r3 in
+          match y with
+          | inr e => Ok (off, Some (map_err e), r4)
+          | inl _ => sync_loop_pinned f r4 off
+          end
+        end
+      end
+    end
+  end.
+Definition sync_pinned (r : reader) : Res (N * reader) :=
+  let? (off, err, r') := sync_loop_pinned (S (length (rest r))) r 0 in
+  match err with None => Ok (off, r') | Some e => Err e end.
+
 End SyncIO.
